@@ -306,12 +306,21 @@ package kcache
 /*@ iface kcache.Subscription.Error
 @*/
 /*@ iface kcache.CacheReader.List
+  theory cachereq
+  note a cache lists the objects it holds: none of them is nil (doList: elements-are-cached-objects)
+  ensures (=> (= result1 vnil) (listNonNil result0))
 @*/
 /*@ iface kcache.cache.sync
+  theory cachereq
+  requires [list-elements-nonnil] (listNonNil $0)
 @*/
 /*@ iface kcache.cache.update
+  theory cachereq
+  requires [event-carries-an-object] (and (not (= $0 vnil)) (not (= (evt-res $0) vnil)))
 @*/
 /*@ iface kcache.cache.refilter
+  theory cachereq
+  requires [arguments] (and (listNonNil $0) (not (= $1 vnil)))
 @*/
 
 /*@ func (*kcache.filterSubscription).distributeEvents
@@ -406,6 +415,7 @@ package kcache
   at call(update) set pendingEvt := false
   at call(FiltersEqual).after set pendingRefilter := (not $result)
   at call(refilter) set pendingRefilter := false
+  at recv(Events) assume [events-on-subscription-channels-are-non-nil-and-carry-objects] (=> $ok (and (not (= $val vnil)) (not (= (evt-res $val) vnil))))
   loop 1 inv [I1-not-ready-while-waiting-for-parent] (=> (not (= {preadych} vnil)) (not {ready}))
   loop 1 inv [I1b-preadych] (and (or (= {preadych} vnil) (= {preadych} (sub-ready {s.parent}))) (= parentReadySeen (= {preadych} vnil)))
   loop 1 inv [I2-ready-iff-readych-closed] (= {ready} {closed(s.readych)})
@@ -553,6 +563,7 @@ package kcache
   at call(sync) set pendingList := false
   at recv(events) set pendingEvt := true
   at call(update) set pendingEvt := false
+  at recv(events) assume [watch-events-are-non-nil-and-carry-objects] (and (not (= $val vnil)) (not (= (evt-res $val) vnil)))
   loop 1 inv [ready-iff-initialized] (= {initialized} {closed(c.readych)})
   loop 1 inv [nothing-published-before-ready] (=> (not {initialized}) (= ndist 0))
   loop 1 inv [reset-only-after-ready] (=> resetCalled {initialized})
@@ -1398,6 +1409,7 @@ package kcache
   ghost requested : Bool := false
   at send(syncch) set requested := true
   exit [error-iff-the-request-was-not-taken-because-of-shutdown] (= (= result1 vnil) requested)
+  implements kcache.cache.sync
 @*/
 /*@ func (*kcache._cache).update
   props C15 C12
@@ -1408,6 +1420,7 @@ package kcache
   ghost requested : Bool := false
   at send(updatech) set requested := true
   exit [error-iff-the-request-was-not-taken-because-of-shutdown] (= (= result1 vnil) requested)
+  implements kcache.cache.update
 @*/
 /*@ func (*kcache._cache).refilter
   props C15 C12
@@ -1418,6 +1431,7 @@ package kcache
   ghost requested : Bool := false
   at send(refilterch) set requested := true
   exit [error-iff-the-request-was-not-taken-because-of-shutdown] (= (= result1 vnil) requested)
+  implements kcache.cache.refilter
 @*/
 /*@ func (*kcache._cache).List
   props C15 C12
@@ -1425,6 +1439,9 @@ package kcache
   ghost requested : Bool := false
   at send(listch) set requested := true
   exit [error-iff-the-request-was-not-taken-because-of-shutdown] (= (= result1 vnil) requested)
+  theory cachereq
+  implements kcache.CacheReader.List
+  at recv(resultch) assume [the-reply-is-the-snapshot-run-computed-with-doList-for-this-request] (and $ok (listNonNil $val))
 @*/
 /*@ func (*kcache._cache).Get
   props C15 C12
